@@ -39,7 +39,9 @@ REQUIRED_BRANCHES = ['chunk_1', 'chunk_full', 'chunk_divides', 'chunk_not_divide
                      'sizes_agree', 'cube_between', 'cube_on_node', 'cube_outside', 'cube_aperture_dependent',
                      'cube_named_entry', 'cube_mixed_name_before_wavelength', 'cube_mixed_name_after_wavelength',
                      'window_empty', 'window_wmin_eq_wmax_on_node', 'ends_other_unit', 'default_max_ram',
-                     'rerun_overwrite', 'cube_wavelength_other_unit']
+                     'rerun_overwrite', 'cube_wavelength_other_unit',
+                     'rerun_after_longer_run', 'gz_leftovers_in_output', 'parameters_stale_gz_beside', 'parameters_only_gz',
+                     'named_filter_stale_gz_beside', 'named_filter_only_gz']
 ASSUMPTIONS = [
     'packages are stored in mJy; SED.read(unit_flux=mJy) computes (x*nu)/nu, so file contents are compared with the '
     'SED cells to 1e-13 relative; contents are compared bit-exactly between memory limits',
@@ -49,6 +51,11 @@ ASSUMPTIONS = [
     'window ends / filter wavelengths given in nm, Angstrom, cm or m: the code compares Quantities, i.e. converts the '
     'end to micron; model and expectation use that converted micron float (an end given ON a tabulated wavelength '
     'in another unit may land one ulp beside it)',
+    'stale siblings: a parameters.fits.gz with another row order beside parameters.fits (the plain file wins) or alone '
+    '(fallback); compressed twins <name>.fits.gz of named broadband filters beside / instead of <name>.fits; '
+    'MOnnn.fits(.gz) leftovers of an earlier longer run in convolved/. A compressed twin of an SED file in seds/ is NOT '
+    'generated: the code globs both *.fits and *.fits.gz, i.e. it is a package with two files for one model, outside '
+    'the quantifier',
     're-runs with overwrite=True into a non-empty convolved/: files of the new window are rewritten, files of earlier '
     'runs outside it stay untouched, the returned table names the new window only',
     'the chunk size that results from max_ram is verified through the code\'s own log lines '
@@ -166,6 +173,12 @@ def directed_runs(pkg, rng):
     runs.append(dict(wmin=mid(0), wmax=mid(2), size=1, rerun=True))
     runs.append(dict(wmin=None, wmax=mid(1), size=2, rerun=True))
     runs.append(dict(wmin=None, wmax=None, size=n, rerun=True))
+    # leftovers of an earlier, LONGER run in the output directory: a narrower re-run, then the same with the leftovers
+    # compressed to MOnnn.fits.gz (no overwrite needed: the plain names are free)
+    runs.append(dict(wmin=None, wmax=None, size=2))
+    runs.append(dict(wmin=mid(1), wmax=mid(2), size=1, rerun=True))
+    runs.append(dict(wmin=None, wmax=None, size=n))
+    runs.append(dict(wmin=mid(0), wmax=mid(2), size=2, gz_leftovers=True))
     return runs
 
 
@@ -181,6 +194,8 @@ def decorate_runs(runs, rng):
             r['size'] = None
         elif x < 0.35 and out:
             r['rerun'] = True
+        elif x < 0.40 and out:
+            r['gz_leftovers'] = True
         out.append(r)
     return out
 
@@ -255,19 +270,23 @@ def gen_cube_case(rng, directed=False):
                 lst.append(entry_n(k % 2))
                 k += 1
         lists.append(lst)
-    return dict(kind='cube', pkg=pkg, broad=broad, lists=lists, aperture_dependent=bool(apdep))
+    return dict(kind='cube', pkg=pkg, broad=broad, lists=lists, aperture_dependent=bool(apdep),
+                named_gz=rng.choice([None, None, None, None, None, 'stale_gz_beside', 'only_gz']))
 
 
 def gen_cases(seed, tier):
     i = 0
     # directed block: one package per spectral direction / aperture layout with the directed runs
-    for direction, nap in (('asc', 0), ('desc', 1), ('asc', 2), ('desc', 3)):
+    for direction, nap, par_gz in (('asc', 0, None), ('desc', 1, 'stale_gz_beside'), ('asc', 2, 'only_gz'), ('desc', 3, None)):
         rng = case_rng(seed, PID, i); i += 1
         pkg = gen_package(rng, nw=rng.randint(5, 6), nm=rng.randint(2, 4), nap=nap, direction=direction)
+        pkg['par_gz'] = par_gz
         yield dict(kind='perfile', pkg=pkg, runs=directed_runs(pkg, rng), all_sizes=False)
-    for _ in range(2):
+    for named_gz in ('stale_gz_beside', 'only_gz'):
         rng = case_rng(seed, PID, i); i += 1
-        yield gen_cube_case(rng, directed=True)
+        c = gen_cube_case(rng, directed=True)
+        c['named_gz'] = named_gz
+        yield c
     if tier == 'thorough':
         # exhaustive: every window x every chunk size for 2..9 wavelengths
         for nw in range(2, 10):
@@ -283,6 +302,7 @@ def gen_cases(seed, tier):
     for _ in range(n_rand):
         rng = case_rng(seed, PID, i); i += 1
         pkg = gen_package(rng)
+        pkg['par_gz'] = rng.choice([None, None, None, None, None, 'stale_gz_beside', 'only_gz'])
         wins = all_windows(pkg['wav'])
         rng.shuffle(wins)
         n = len(pkg['wav'])
@@ -303,10 +323,26 @@ def _end(x):
     return 'none' if x is None else rat(x)
 
 
+def _gzip_file(src, dst):
+    import gzip
+    with open(src, 'rb') as f, gzip.open(dst, 'wb') as g:
+        g.write(f.read())
+
+
 def build_perfile(pkg, d):
+    """pkg['par_gz']: 'stale_gz_beside' = a parameters.fits.gz with ANOTHER row order lies beside parameters.fits (which
+    must win); 'only_gz' = only parameters.fits.gz exists (load_parameter_table falls back to it)"""
     names = pkg['names']
+    par = os.path.join(d, 'parameters.fits')
+    if pkg.get('par_gz') == 'stale_gz_beside':
+        pk.write_sed_package(d, names, pkg['wav'], pkg['flux'], pkg['err'], apertures_au=pkg['aps'],
+                             table_order=pkg['table'][::-1], file_names=pkg['stems'], aperture_dependent=False)
+        _gzip_file(par, par + '.gz')
     pk.write_sed_package(d, names, pkg['wav'], pkg['flux'], pkg['err'], apertures_au=pkg['aps'],
                          table_order=pkg['table'], file_names=pkg['stems'], aperture_dependent=False)
+    if pkg.get('par_gz') == 'only_gz':
+        _gzip_file(par, par + '.gz')
+        os.remove(par)
 
 
 def _unit(name):
@@ -329,8 +365,15 @@ def run_mono(d, nm, nap, run):
     from sedfitter.convolved_fluxes import ConvolvedFluxes
     conv = os.path.join(d, 'convolved')
     kw = {}
+    gz_before = {}
     if run.get('rerun'):
         kw['overwrite'] = True
+    elif run.get('gz_leftovers') and os.path.isdir(conv):
+        for f in sorted(os.listdir(conv)):
+            if f.endswith('.fits'):
+                _gzip_file(os.path.join(conv, f), os.path.join(conv, f + '.gz'))
+                os.remove(os.path.join(conv, f))
+        gz_before = {f: open(os.path.join(conv, f), 'rb').read() for f in sorted(os.listdir(conv)) if f.endswith('.gz')}
     else:
         shutil.rmtree(conv, ignore_errors=True)
     if run['size'] is None:
@@ -362,7 +405,9 @@ def run_mono(d, nm, nap, run):
                 files[f[:-5]] = ConvolvedFluxes.read(os.path.join(conv, f))
     table = [(float(w), (x.decode() if isinstance(x, bytes) else str(x)).strip())
              for w, x in zip(np.asarray(t['wav'].to(u.micron).value if hasattr(t['wav'], 'to') else t['wav']), t['filter'])]
-    return dict(raised=None, files=files, table=table, log=msgs, max_ram=max_ram, lo=lo, hi=hi)
+    gz_after = {f: open(os.path.join(conv, f), 'rb').read() for f in sorted(os.listdir(conv)) if f.endswith('.gz')}
+    return dict(raised=None, files=files, table=table, log=msgs, max_ram=max_ram, lo=lo, hi=hi,
+                gz_before=gz_before, gz_after=gz_after)
 
 
 def parse_log(msgs):
@@ -403,6 +448,8 @@ def check_perfile(case, d, branches, with_model=True):
     if pkg['aps'] is None:
         branches.add('no_apertures')
     branches.add('wav_given_' + pkg['direction'])
+    if pkg.get('par_gz') and nm > 1:
+        branches.add('parameters_' + pkg['par_gz'])
     if pkg['table'] != names:
         branches.add('table_permuted')
     prop, mod = [], []
@@ -438,6 +485,8 @@ def check_perfile(case, d, branches, with_model=True):
             branches.add('default_max_ram')
         if run.get('rerun'):
             branches.add('rerun_overwrite')
+        if run.get('gz_leftovers'):
+            tag += ' (earlier MOnnn files left as .fits.gz)'
         # ---- implementation raised: the property promises a result for every window
         if res['raised']:
             prop.append('%s: raised %s; the closed window holds wavelength indices %r' % (tag, res['raised'], closed))
@@ -458,6 +507,13 @@ def check_perfile(case, d, branches, with_model=True):
         stale = [st for st in before if st not in want_stems and before[st] != now[st]]
         if stale:
             prop.append('%s: files outside the window changed during the re-run: %r' % (tag, stale))
+        if set(before) - want_stems:
+            branches.add('rerun_after_longer_run')
+        if run.get('gz_leftovers') and res['gz_before']:
+            branches.add('gz_leftovers_in_output')
+            if res['gz_after'] != res['gz_before']:
+                prop.append('%s: compressed leftovers changed: before %r, after %r'
+                            % (tag, sorted(res['gz_before']), sorted(res['gz_after'])))
         if not closed:
             branches.add('window_empty')
         if len(res['table']) != nw or not np.allclose([w for w, _ in res['table']], wdesc, rtol=1e-12, atol=0):
@@ -617,8 +673,19 @@ def check_cube(case, d, branches, with_model=True):
             with common.quiet():
                 convolve_model_dir(d, filters, memmap=False)
                 for f in case['broad']:
-                    cf = ConvolvedFluxes.read(os.path.join(d, 'convolved', f['name'] + '.fits'))
+                    path = os.path.join(d, 'convolved', f['name'] + '.fits')
+                    cf = ConvolvedFluxes.read(path)
                     conv[f['name']] = np.asarray(cf.flux.to(u.mJy).value, float).reshape(nm, -1)
+                    if case.get('named_gz') == 'stale_gz_beside':
+                        # a compressed twin with OTHER numbers beside the file: the plain file must win
+                        cf.flux = cf.flux * 3.
+                        cf.write(path + '.gz', overwrite=True)
+                        branches.add('named_filter_stale_gz_beside')
+                    elif case.get('named_gz') == 'only_gz':
+                        # only the compressed twin exists: the reader falls back to it
+                        cf.write(path + '.gz', overwrite=True)
+                        os.remove(path)
+                        branches.add('named_filter_only_gz')
         except Exception as e:
             # the broadband convolution is C07's business; without the files the mixed lists cannot be built
             return [], ['harness: convolve_model_dir on the cube package raised %s: %s' % (type(e).__name__, e)], nw >= 2
